@@ -303,3 +303,51 @@ class Sender:
             out.append("%s  <=  %s" % ("offer(from=%s)" % frm if aggs else "skip",
                                        " & ".join(sym.fmt_cond(c)[:90] for c in cs) or "true"))
         return out
+
+
+# ----------------------------------------------------------------------- process_message
+class ProcessMessage:
+    """table of Chitchat::process_message with its heavy callees kept as call events"""
+
+    def __init__(self, fx, roles):
+        self.fx = fx
+        self.roles = roles
+        self.fn = roles.process_message
+        dig_len = [f["id"] for f in fx.fns.values() if f.get("impl_self") == "digest::Digest"
+                   and f.get("impl_trait") == "serialize::Serializable" and f["id"].endswith("::serialized_len")]
+        self.digest_len = dig_len[0] if dig_len else None
+        self.keep = {
+            "process_delta": roles.process_delta["id"],
+            "report_heartbeats_in_digest": roles.report_heartbeats_in_digest["id"],
+            "compute_delta": roles.compute_delta["id"],
+            "update_self_heartbeat": roles.update_self_heartbeat["id"],
+            "compute_digest": roles.chitchat_compute_digest["id"],
+            "scheduled": roles.scheduled_for_deletion_nodes["id"],
+        }
+        no_inline = set(self.keep.values()) | ({self.digest_len} if self.digest_len else set())
+        self.eng = Engine(fx, no_inline=no_inline)
+        self.rows = self.eng.table(self.fn["id"], arg_terms={1: ("ptr", ("S", "self"), ()), 2: ("obj", ("S", "msg"))})
+        self.by_variant = {}
+        for r in self.rows:
+            v = None
+            for c in r.cond:
+                if c[0] == "variant" and c[1] == ("obj", ("S", "msg")) and c[3]:
+                    v = c[2]
+            self.by_variant.setdefault(v, []).append(r)
+
+    def calls(self, row, role):
+        fid = self.keep[role]
+        return [e for e in row.events if e[0] == "call" and e[1] == fid]
+
+    def index_of(self, row, ev):
+        return row.events.index(ev)
+
+    def ret_variant(self, row):
+        """variant of the returned message (None for Option::None)"""
+        t = row.ret
+        if t is None or t[0] != "agg":
+            return "?"
+        if t[2] == "None":
+            return None
+        inner = T.field(t, "0")
+        return variant_of(inner) or "?"
